@@ -64,6 +64,14 @@ def fam_C01(tier, seed):
         b = PB(H, user_horizon=uh, tag="single")
         b.task("A", kind, optional=optional, release=rel, due=due, deadline=dl, **kw)
         ps.append(b.done())
+    # longer lists of allowed durations (regular and irregular spacing), on a horizon that leaves room for each of them
+    for al, optional, work in itertools.product(([1, 3, 4, 7], [2, 4, 5, 8], [1, 3, 5, 7], [1, 2, 4, 8], [2, 3, 5], [1, 4, 6, 7, 8]),
+                                                (False, True), (0, 5)):
+        b = PB(8, tag="allowed-durations")
+        a = b.task("A", "V", min=0, allowed=al, optional=optional, work=work)
+        if work:
+            b.require(a, worker=b.worker("W"))
+        ps.append(b.done())
     # contexts: the task under test next to other model elements
     ctx = []
     for (kind, kw), optional, rel, (due, dl), context in itertools.product(
